@@ -1493,18 +1493,8 @@ int input_to (svalue_t * fun, int flag, int num_arg, svalue_t * args) {
   if (!command_giver || command_giver->flags & O_DESTRUCTED)
     return 0;
 
-  s = alloc_sentence ();
-  if (!set_call (command_giver, s, flag & ~I_SINGLE_CHAR))
-    {
-      /* LPC spec. says if input_to() is called more than once, only the first call succeeds.
-       * No error is raised for subsequent calls, but the sentence created for the subsequent
-       * call should be freed to avoid memory leaks.
-       */
-      free_sentence (s);
-      return 0;
-    }
-
-  /* Convert string to function pointer or use existing funptr */
+  /* Convert string to function pointer or use existing funptr. This comes before the sentence is
+   * installed: an error raised here must not leave a sentence without a function behind. */
   if (fun->type == T_STRING)
     {
       /* Find function in current_object and create FP_LOCAL function pointer */
@@ -1525,8 +1515,19 @@ int input_to (svalue_t * fun, int flag, int num_arg, svalue_t * args) {
     }
   else
     {
-      free_sentence (s);
       error ("input_to: fun must be string or function");
+    }
+
+  s = alloc_sentence ();
+  if (!set_call (command_giver, s, flag & ~I_SINGLE_CHAR))
+    {
+      /* LPC spec. says if input_to() is called more than once, only the first call succeeds.
+       * No error is raised for subsequent calls, but the sentence created for the subsequent
+       * call should be freed to avoid memory leaks.
+       */
+      free_sentence (s);
+      free_funp (callback_funp);
+      return 0;
     }
 
   /* Store function pointer (always use V_FUNCTION now) */
@@ -1562,18 +1563,8 @@ int get_char (svalue_t * fun, int flag, int num_arg, svalue_t * args) {
   if (!command_giver || command_giver->flags & O_DESTRUCTED)
     return 0;
 
-  s = alloc_sentence ();
-  if (!set_call (command_giver, s, flag | I_SINGLE_CHAR))
-    {
-      /* LPC spec. says if get_char() is called more than once, only the first call succeeds.
-       * No error is raised for subsequent calls, but the sentence created for the subsequent
-       * call should be freed to avoid memory leaks.
-       */
-      free_sentence (s);
-      return 0;
-    }
-
-  /* Convert string to function pointer or use existing funptr */
+  /* Convert string to function pointer or use existing funptr. This comes before the sentence is
+   * installed: an error raised here must not leave a sentence without a function behind. */
   if (fun->type == T_STRING)
     {
       /* Find function in current_object and create FP_LOCAL function pointer */
@@ -1594,8 +1585,19 @@ int get_char (svalue_t * fun, int flag, int num_arg, svalue_t * args) {
     }
   else
     {
-      free_sentence (s);
       error ("get_char: fun must be string or function");
+    }
+
+  s = alloc_sentence ();
+  if (!set_call (command_giver, s, flag | I_SINGLE_CHAR))
+    {
+      /* LPC spec. says if get_char() is called more than once, only the first call succeeds.
+       * No error is raised for subsequent calls, but the sentence created for the subsequent
+       * call should be freed to avoid memory leaks.
+       */
+      free_sentence (s);
+      free_funp (callback_funp);
+      return 0;
     }
 
   /* Store function pointer (always use V_FUNCTION now) */
